@@ -90,7 +90,7 @@ pub fn reference(scan: &Scan, s: &[u8], offset: usize) -> (usize, Need) {
                 return (offset, Need::Bytes(0));
             }
             for (j, &p) in pat.iter().enumerate() {
-                let idx = offset + j;
+                let idx = offset.saturating_add(j);
                 if idx >= len {
                     return (offset, Need::Eof);
                 }
@@ -245,17 +245,28 @@ fn replay_value(case: &Case, taken: &[(u32, u32)]) -> Value {
     })
 }
 
+/// Start offsets far beyond any input (where `offset + n` wraps): the scanners must answer like for
+/// any other offset behind the end of the input.
+const EXTREME_OFFSETS: [usize; 5] = [usize::MAX, usize::MAX - 1, usize::MAX - 2, usize::MAX - 7, usize::MAX / 2 + 1];
+
 fn check_string(s: &[u8], report: &mut Report) {
-    let chunks = [1usize, 2, 16384];
-    for offset in 0..=s.len() + 1 {
+    let mut offsets: Vec<usize> = (0..=s.len() + 1).collect();
+    if s.len() <= 4 {
+        offsets.extend_from_slice(&EXTREME_OFFSETS);
+    }
+    check_string_with(s, &offsets, &[1usize, 2, 16384], None, report);
+}
+
+fn check_string_with(s: &[u8], offsets: &[usize], chunks: &[usize], bound: Option<usize>, report: &mut Report) {
+    for &offset in offsets {
         let mut scans = vec![Scan::TabsOrSpaces, Scan::Newline, Scan::NextNewline];
         scans.extend(patterns_for(s, offset).into_iter().map(Scan::Fixed));
         for scan in &scans {
-            for &chunk in &chunks {
+            for &chunk in chunks {
                 let case = Case { s, offset, scan, chunk };
                 let mut local_err = None;
                 let r = explore(
-                    None,
+                    bound,
                     |prefix| {
                         let (taken, diverged, outcome) = exec(&case, prefix);
                         if let Some(d) = diverged {
@@ -269,10 +280,10 @@ fn check_string(s: &[u8], report: &mut Report) {
                         report.outcome(format!(
                             "{}:{:?}:{:?}",
                             scan.name(),
-                            outcome.result.map(|r| r as isize - offset as isize),
+                            outcome.result.map(|r| (r as isize).wrapping_sub(offset as isize)),
                             match reference(scan, s, offset).1 {
                                 Need::Eof => -1isize,
-                                Need::Bytes(k) => k as isize - offset as isize,
+                                Need::Bytes(k) => (k as isize).wrapping_sub(offset as isize),
                             }
                         ));
                         for (kind, what) in outcome.problems {
@@ -301,39 +312,8 @@ fn check_string(s: &[u8], report: &mut Report) {
 
 pub fn run(tier: Tier, report: &mut Report) {
     let max_len = tier.pick(6, 8);
-    let budget = Budget::new(tier.pick(40.0, 1500.0));
+    let budget = Budget::new(tier.pick(60.0, 1500.0));
     let threads = mc_core::threads();
-    for n in 0..=max_len {
-        if budget.expired() {
-            report.cap(format!("time budget hit before strings of length {n}"));
-            break;
-        }
-        let strings = strings_of_len(n);
-        let stop = std::sync::atomic::AtomicBool::new(false);
-        let total = mc_core::par::par_fold(
-            strings.len(),
-            threads,
-            Report::new,
-            |acc, i| {
-                if stop.load(std::sync::atomic::Ordering::Relaxed) {
-                    return;
-                }
-                if budget.expired() {
-                    stop.store(true, std::sync::atomic::Ordering::Relaxed);
-                    return;
-                }
-                check_string(&strings[i], acc);
-                acc.states += 1;
-            },
-            |a, b| a.merge(b),
-        );
-        report.merge(total);
-        if stop.load(std::sync::atomic::Ordering::Relaxed) {
-            report.cap(format!("time budget hit inside strings of length {n}"));
-            break;
-        }
-        report.completed.push(format!("all {} strings of length {n} x all offsets x all scanners/patterns x chunk {{1,2,16384}} x all read schedules", strings.len()));
-    }
     // second family — the full byte alphabet: for every byte value b outside the small alphabet,
     // every string of length <= 3 (quick) / 4 (thorough) over {SP, LF, CR, b} that contains b.
     // Settles per-byte classification (form feed, vertical tab, NUL, NEL/0x85, case variants of
@@ -382,6 +362,80 @@ pub fn run(tier: Tier, report: &mut Report) {
         report.cap("time budget hit inside the full-byte-alphabet family".to_string());
     } else {
         report.completed.push(format!("all {} strings of length <= {l2} over {{SP,LF,CR,b}} containing b, for each of the 251 other byte values b, x all offsets x all scanners/patterns x chunks x all read schedules", strings.len()));
+    }
+    // third family — word lanes: 12 filler bytes with every byte value at every position, followed
+    // by a line end and one more byte, so that block-wise (8 bytes at a time) implementations see every
+    // byte value in every lane. Start offsets 0, 1 and 3; chunk sizes 4 and 16384; the one-shot
+    // schedule and every schedule with one departure from it.
+    let mut strings: Vec<Vec<u8>> = Vec::new();
+    for b in 0..=255u8 {
+        for k in 0..12usize {
+            for filler in [b'x', b' '] {
+                if b == filler {
+                    continue;
+                }
+                let mut s = vec![filler; 12];
+                s[k] = b;
+                s.extend_from_slice(b"\nx");
+                strings.push(s);
+            }
+        }
+    }
+    let stop = std::sync::atomic::AtomicBool::new(false);
+    let total = mc_core::par::par_fold(
+        strings.len(),
+        threads,
+        Report::new,
+        |acc, i| {
+            if stop.load(std::sync::atomic::Ordering::Relaxed) {
+                return;
+            }
+            if budget.expired() {
+                stop.store(true, std::sync::atomic::Ordering::Relaxed);
+                return;
+            }
+            check_string_with(&strings[i], &[0, 1, 3], &[4, 16384], Some(1), acc);
+            acc.states += 1;
+            acc.count("word_lane_strings", 1);
+        },
+        |a, b| a.merge(b),
+    );
+    report.merge(total);
+    if stop.load(std::sync::atomic::Ordering::Relaxed) {
+        report.cap("time budget hit inside the word-lane family".to_string());
+    } else {
+        report.completed.push(format!("word lanes: {} strings (12 filler bytes x / SP with every byte value at every position, then LF x) x offsets {{0,1,3}} x all scanners/patterns x chunk {{4,16384}} x every schedule with at most one departure from one-shot", strings.len()));
+    }
+    for n in 0..=max_len {
+        if budget.expired() {
+            report.cap(format!("time budget hit before strings of length {n}"));
+            break;
+        }
+        let strings = strings_of_len(n);
+        let stop = std::sync::atomic::AtomicBool::new(false);
+        let total = mc_core::par::par_fold(
+            strings.len(),
+            threads,
+            Report::new,
+            |acc, i| {
+                if stop.load(std::sync::atomic::Ordering::Relaxed) {
+                    return;
+                }
+                if budget.expired() {
+                    stop.store(true, std::sync::atomic::Ordering::Relaxed);
+                    return;
+                }
+                check_string(&strings[i], acc);
+                acc.states += 1;
+            },
+            |a, b| a.merge(b),
+        );
+        report.merge(total);
+        if stop.load(std::sync::atomic::Ordering::Relaxed) {
+            report.cap(format!("time budget hit inside strings of length {n}"));
+            break;
+        }
+        report.completed.push(format!("all {} strings of length {n} x all offsets x all scanners/patterns x chunk {{1,2,16384}} x all read schedules", strings.len()));
     }
     report.traces = report.evaluations;
     // samples: a few concrete executions written out
